@@ -137,6 +137,37 @@ def directed_program(k, first, late, outer, root_blocking, late_from_child, a_bl
     return tasks, a, R
 
 
+def directed_program_last_main(k, first, late, outer, root_blocking, late_from_child, late_flavour, stall_ms):
+    """Second directed family: the FIRST failing task is the last live main task of the scope (the
+    scenario root itself; every other task is a background task).  Task::run must record its error
+    (set_err: store + cancel in one critical section) BEFORE it releases its Arc<CancelGuard>; if
+    the guard went first, CancelGuard::drop would cancel the context with no error recorded and a
+    background task failing in reaction could win.  The hook stalls whichever thread cancels the
+    context and releases k background tasks that fail strictly after the root.
+    Returns (tasks, id of the first failing task = scenario root, id of the scenario scope)."""
+    T = lambda scope, main, blocking, acts: {"scope": scope, "main": main, "blocking": blocking, "acts": acts}
+    tasks = []
+    if outer:
+        tasks.append(T(0, True, root_blocking, [["nested", 1, False]]))
+    R = len(tasks)
+    tasks.append(T(R, True, root_blocking, []))
+    racts = tasks[R]["acts"]
+    for j in range(k):
+        b = len(tasks)
+        blocking = {"blocking": True, "async": False, "mixed": j % 2 == 0}[late_flavour]
+        tasks.append(T(R, False, blocking, [["held"]]))
+        racts.append(["spawn", b])
+        if late_from_child:
+            r = len(tasks)
+            tasks.append(T(r, True, blocking, [["fail", 100 + r]] if late == "err" else [["panic"]]))
+            tasks[b]["acts"].append(["nested", r, False])
+        else:
+            tasks[b]["acts"].append(["fail", 100 + b] if late == "err" else ["panic"])
+    racts.append(["hook", k, stall_ms])
+    racts.append(["fail", 100 + R] if first == "err" else ["panic"])
+    return tasks, R, R
+
+
 def directed_cases(rng, nseeds):
     """(first failure, late failures) x k in {1,4,16} with the other switches cycled."""
     out = []
@@ -157,6 +188,28 @@ def directed_cases(rng, nseeds):
                              "outer": outer, "root_blocking": root_blocking, "late_from_child": late_from_child}
             out.append(c)
             i += 1
+    # family 2: the first failure is the last live main task (guard must outlive set_err)
+    j = 0
+    for (first, late) in (("err", "err"), ("err", "err"), ("panic", "err"), ("err", "panic")):
+        for k in ((1, 4, 16) if (first, late) == ("err", "err") else (4,)):
+            outer = j % 2 == 1
+            root_blocking = j % 3 == 1
+            flavour = ("mixed", "blocking", "async")[j % 3]
+            # a child scope creates a ctx watcher task that parks a runtime worker on the semaphore
+            # lock held while the hook stalls: keep those few and off the async late tasks
+            late_from_child = j in (1, 4, 6) and k <= 4
+            if late_from_child:
+                flavour = "blocking"
+            tasks, a, R = directed_program_last_main(k, first, late, outer, root_blocking, late_from_child, flavour, 120)
+            c = make_case(rng, tasks, nseeds, True)
+            c["ext_after"] = -1
+            c["stall_ms"] = 1500
+            c["directed"] = {"family": "last_main_guard", "first_task": a, "scope": R,
+                             "expect": [2, 0] if "panic" in (first, late) else [1, 100 + a], "k": k, "first": first,
+                             "late": late, "outer": outer, "root_blocking": root_blocking,
+                             "late_from_child": late_from_child, "late_flavour": flavour}
+            out.append(c)
+            j += 1
     # the two decisive combinations once more with every switch on
     for (first, late) in (("err", "err"), ("panic", "err")):
         tasks, a, R = directed_program(4, first, late, True, True, True, True, True, 120)
@@ -188,8 +241,11 @@ def directed_predicate(case, run):
         return bad  # the forced order did not materialise (e.g. external cancellation fired the hook)
     got = [ret[0][2], ret[0][3]]
     if got != d["expect"]:
-        bad.append(f"set_err is not atomic: task {d['first_task']} failed first ({d['first']}), the {d['k']} other tasks failed strictly after it "
-                   f"(released from inside its set_err), but scope {d['scope']} returned {got} instead of {d['expect']}")
+        why = ("the last main task released its CancelGuard (cancelling the scope) before its error was recorded"
+               if d.get("family") == "last_main_guard"
+               else "the first failure is not the one reported (set_err must check precedence, cancel and store in one critical section: panic > first error > later errors)")
+        bad.append(f"{why}: task {d['first_task']} failed first ({d['first']}), the {d['k']} other tasks failed strictly after it "
+                   f"(released by the cancellation it caused), but scope {d['scope']} returned {got} instead of {d['expect']}")
     return bad
 
 
@@ -579,7 +635,7 @@ def run(rep):
         "rule": "random task trees (tasks main/background x async/blocking, spawn, nested scopes with and without deadline context, await-cancel, join, s.cancel(), fail, panic) each run under several seeded perturbation schedules (yield / 40-260us sleeps before every action) on a 4-worker tokio runtime; external cancellation of the caller's context after a random number of events or on stall; non-trivial+distinct = distinct (program, event log, result) triples, each replayed by the model in Coq",
         "programs": len(cases), "schedules_per_program": nseeds,
         "directed_family": {"programs": n_directed, "runs": n_directed_runs,
-                            "what": "the model's LSetErr step is atomic (H-ATOM: precedence check + ctx.cancel() + store in one critical section of State::err). This family is what checks that atomicity on the code: a std::task::Wake hook registered on ctx.canceled() runs synchronously inside the first failing task's set_err -> ctx.cancel(), releases k in {1,4,16} parked tasks that fail (Err / panic / Err from a child scope) strictly after it and stalls the cancelling thread 120 ms; oracle: run!/run_blocking! (plain and nested) reports the first failure (Err(first) resp. the panic), checked by a python predicate and by the model replay"},
+                            "what": "the model's LSetErr step is atomic (H-ATOM: precedence check + ctx.cancel() + store in one critical section of State::err). This family is what checks that atomicity on the code: a std::task::Wake hook registered on ctx.canceled() runs synchronously inside the first failing task's set_err -> ctx.cancel(), releases k in {1,4,16} parked tasks that fail (Err / panic / Err from a child scope) strictly after it and stalls the cancelling thread 120 ms; oracle: run!/run_blocking! (plain and nested) reports the first failure (Err(first) resp. the panic), checked by a python predicate and by the model replay. Family 2 (last_main_guard): the first failing task is the LAST live main task (the scope's root, all other tasks background, async and blocking); in the model a failing task's steps are ordered LSetErr (record error + cancel, atomic) and only then LDrop (release of its CancelGuard/TerminateGuard) - theorem C17_failure_is_reported, phase PEnded -> PErrSet -> PDone - so the cancellation caused by the last main task never precedes the recording of its error; that order (H-ATOM grain of Task::run: set_err before the guard is released) is checked on the code by this family: the hook stalls whichever thread cancels the context, the released background tasks fail strictly after the root, and the scope must still report the root's failure"},
         "input_distribution": {"programs": stats, "actions": act_hist, "events": {names[k]: v for k, v in sorted(ev_hist.items())},
                                "results": res_hist, "runs_with_external_cancel": n_ext, "runs_stalled_before_external_cancel": n_stall,
                                "tasks_per_program_max": max(len(c["tasks"]) for c in cases)},
